@@ -267,7 +267,11 @@ func sanitizeName(name string) string {
 	// compile-time error), so appending '_' does not help. Rust naga's Namer prefixes
 	// names that start with a reserved prefix with "gen_". The bare name "gl" is included
 	// because its collision-suffixed forms are gl_1, gl_2, ...
-	if s := string(result); s == "gl" || strings.HasPrefix(s, "gl_") {
+	// The same goes for the prefixes of the names this writer generates without
+	// asking the namer: `_group_G_binding_B_stage` (bound resources) and
+	// `_immediates_binding_stage` — a user local of that name would hide the buffer.
+	if s := string(result); s == "gl" || strings.HasPrefix(s, "gl_") ||
+		strings.HasPrefix(s, "_group") || strings.HasPrefix(s, "_immediates_binding_") {
 		return "gen_" + s
 	}
 	return string(result)
